@@ -75,12 +75,11 @@ Sub(a, b)     == SubSeq(src, a, b - 1)                              \* character
 
 -----------------------------------------------------------------------------
 \* DIALECT SWITCHES (every documented difference between the three scanners)
-\* Repairs of the XGo scanner proposed in /verif/fixes that have been committed to the tree under test.
-\* Add "tilde" (C16-tilde.diff), "sharp-empty" (C32-sharp-empty-comment.diff), "sharp-star"
-\* (C32-sharp-star-line-comment.diff) when the corresponding repair is in; until then the xgo dialect
-\* models today's code.  (C15-unit-offset.diff and C15-sharp-eof-panic.diff need no switch: the model
-\* already has the behaviour the property demands.)
-XGoFixed == {}
+\* Repairs of the XGo scanner proposed in /verif/fixes and committed to /repo (`fix:` commits ead8333,
+\* 7645ecf, 8b7f5d9).  With a tag removed the xgo dialect models the scanner before that repair.
+\* (The repairs 60a3978 "UNIT offset" and 42ff237 "# at EOF" need no switch: the model always had the
+\* behaviour the property demands.)
+XGoFixed == {"tilde", "sharp-empty", "sharp-star"}
 
 HasKeywords      == dia \in {"xgo", "go"}         \* tpl: every identifier is IDENT
 HasPrefixStrings == dia = "xgo"                    \* c"..", C"..", py".." (scanner.go: Scan, case isLetter)
@@ -152,7 +151,10 @@ CommentLit(b) ==
        IF b[1] = SHARP THEN b                                        \* tpl scanSharpComment: raw
        ELSE IF HasCRFrom(b, 3) THEN StripCR(b, FALSE) ELSE b         \* tpl stripCR: all \r
   ELSE \* scanner.go / go/scanner scanComment, label exit
-       LET n0 == NumCRFrom(b, 3)
+       \* numCR counts the \r met by the loops: everything after the two-character opener; before repair
+       \* "sharp-empty" the # style skipped its second character unseen, afterwards it is looked at too
+       LET from == IF b[1] = SHARP /\ dia = "xgo" /\ "sharp-empty" \in XGoFixed THEN 2 ELSE 3
+           n0 == NumCRFrom(b, from)
            dropLast == n0 > 0 /\ Len(b) >= 2 /\ b[2] = SL /\ b[Len(b)] = CR
            b1 == IF dropLast THEN SubSeq(b, 1, Len(b) - 1) ELSE b
            n1 == IF dropLast THEN n0 - 1 ELSE n0
